@@ -213,10 +213,11 @@ func applyC13(t *rapid.T, base World, kind string) (World, bool) {
 	switch kind {
 	case "invariant:reparse-later":
 	case "invariant:rename-file":
-		l.Alias = "" // alias follows the file name
+		// only meaningful when the alias is explicit (otherwise the rename changes the alias others refer to)
+		if l.Alias == "" {
+			return w, false
+		}
 		l.File = "moved/renamed-leaf" + l.File[strings.LastIndex(l.File, "."):]
-		l.Alias = "the leaf"
-		return w, false // a rename changes the derived alias unless it is explicit; handled by explicit-alias
 	case "invariant:explicit-alias":
 		l.Alias = "the leaf"
 	case "invariant:rename-profile":
@@ -439,15 +440,20 @@ func TestC13(t *testing.T) {
 	}
 	var kinds []string
 	for _, k := range c13Invariants {
-		if k != "rename-file" {
-			kinds = append(kinds, "invariant:"+k)
-		}
+		kinds = append(kinds, "invariant:"+k)
 	}
 	for _, k := range c13Edits {
 		kinds = append(kinds, "edit:"+k)
 	}
 	gen := func(t *rapid.T) c13Case {
 		base := genC13Base(t)
+		if rapid.IntRange(0, 7).Draw(t, "explicit-alias-base") == 0 {
+			// a leaf with an explicit alias can be moved to another file name without anything else changing
+			target(&base).Alias = "the leaf"
+			if after, ok := applyC13(t, base, "invariant:rename-file"); ok {
+				return c13Case{Base: base, Kind: "invariant:rename-file", After: after}
+			}
+		}
 		if rapid.IntRange(0, 9).Draw(t, "with-bc") == 0 {
 			// make the pathLen absent<->0 edit applicable
 			bc := core.Extension{Kind: core.KBC, HasContent: true, BC: &core.BC{Ca: core.BoolP(rapid.Bool().Draw(t, "bc-ca"))}}
